@@ -310,11 +310,11 @@ def known_findings():
 # s1      : regex selecting the S1 mismatch categories that concern the property (None = all)
 # ns      : theorem namespaces counted as this property's obligations
 PROPS = {
-    "C01": dict(key="C01", unsafe="0", streams=("S1", "S2"), s1=None, ns=["C01", "C17", "Tables"], big=True),
-    "C02": dict(key="C02", unsafe="0", streams=("S1", "S2"), s1=None, ns=["C02", "C17", "Tables"], big=True),
-    "C03": dict(key="C03", unsafe="0", streams=("S1", "S2"), s1=None, ns=["C03", "C17", "Tables"]),
+    "C01": dict(key="C01", unsafe="0", streams=("S1", "S2", "S3"), s1=None, ns=["C01", "C17", "EndToEnd", "Tables"], big=True),
+    "C02": dict(key="C02", unsafe="0", streams=("S1", "S2", "S3"), s1=None, ns=["C02", "C17", "EndToEnd", "Tables"], big=True),
+    "C03": dict(key="C03", unsafe="0", streams=("S1", "S2", "S3"), s1=None, ns=["C03", "C17", "EndToEnd", "Tables"]),
     "C04": dict(key="C04", unsafe="mix", streams=("S2", "S3"), s1=r"^$", ns=["C04", "Tables"], big=True),
-    "C05": dict(key="C05", unsafe="0", streams=("S1", "S2"), s1=r"cleanup|valid_opcodes", ns=["C05", "Tables"], big=True),
+    "C05": dict(key="C05", unsafe="0", streams=("S1", "S2", "S3"), s1=r"cleanup|valid_opcodes", ns=["C05", "EndToEnd", "Tables"], big=True),
     "C06": dict(key="C06", unsafe="mix", streams=("S2", "S3"), s1=r"^$", ns=["C06"], big=True),
     "C08": dict(key=None, unsafe="mix", streams=("S6", "S3"), s1=r"^$", ns=["C08"]),
     "C09": dict(key="gen", unsafe="mix", streams=("S3", "S4", "S5"), s1=r"^$", ns=["C09", "C18", "Tables"], big=True),
@@ -495,11 +495,11 @@ def stream_s3(cx):
             if " ok " in out or out.endswith(" ok"):
                 ok += 1
                 o = toks(out)
-                if cx.prop == "C04":
-                    # hypotheses and conclusion of C04.generated_bytes_well_formed on the real data
+                if cx.prop in ("C04", "C05"):
+                    # hypotheses and conclusion of C04.generated_bytes_well_formed / C05.protocol0_seven_bit on the real data
                     cx.cov["floatok_checked"] = cx.cov.get("floatok_checked", 0) + int(o.get("floats", "0"))
                     if o.get("floatok") == "0":
-                        cx.failing.append(("S3", case_of(req), "FloatOK_hypothesis_fails:a_float_the_generator_printed_is_not_a_newline_free_python_float_literal"))
+                        cx.failing.append(("S3", case_of(req), "FloatOK/FloatAscii_hypothesis_fails:a_float_the_generator_printed_is_not_a_newline_free_7-bit_python_float_literal"))
                     if o.get("wf") == "0":
                         cx.failing.append(("S3", case_of(req), "model_output_not_well_formed(theorem_C04.generated_bytes_well_formed_contradicted?)"))
                 if cx.prop == "C11" and o.get("tbounds") == "0":
@@ -509,12 +509,12 @@ def stream_s3(cx):
             elif " FAIL " in out:
                 bad.append((case_of(req), out))
     cx.cov["gen_exact_agreements"] = ok
-    if cx.prop == "C04":
+    if cx.prop in ("C04", "C05"):
         h = [l for l in drive("hyps\n") if l.startswith("hyps ")]
         ht = toks(h[0]) if h else {}
         cx.cov["modsok_checked"] = int(ht.get("mods", "0"))
         if ht.get("modsok") != "1" or int(ht.get("mods", "0")) == 0:
-            cx.corr.append(dict(stream="S3", count=1, first="ModsOK hypothesis of C04.generated_bytes_well_formed fails on /repo/data/stdlib_complete.txt: " + (h[0] if h else "no answer"), case="hyps"))
+            cx.corr.append(dict(stream="S3", count=1, first="ModsOK hypothesis of C04.generated_bytes_well_formed / C05.protocol0_seven_bit fails on /repo/data/stdlib_complete.txt: " + (h[0] if h else "no answer"), case="hyps"))
     cx.cov["traces_validated_against_impl"] += ok
     if cx.prop == "C09":
         cx.cov["distinct_nontrivial"] = max(cx.cov["distinct_nontrivial"], len(cx.seen))
